@@ -240,7 +240,8 @@ Inductive rop :=
 | TUpdate (t : str) (br : option str) (v : N) (vex : bool)
 | TDelete (t : str)
 | BCreate (n : str) (src : option str) (v : N) (vex : bool)   (* Dataset::create_branch; domain: n valid *)
-| BDelete (n : str) (force : bool).                            (* Branches::delete *)
+| BDelete (n : str) (force : bool).                            (* Branches::delete; domain: force on an unlisted name only when tree/n holds a
+                                                                  (zombie) dataset - without a directory the call fails NotFound on a local fs *)
 
 (* result codes: 0 Ok, 1 InvalidRef, 2 RefConflict, 3 RefNotFound, 4 VersionNotFound, 9 any other error *)
 Definition rstep (st : refs_state) (op : rop) : N * refs_state :=
